@@ -8,8 +8,10 @@ package netstate
 
 import (
 	"context"
+	"errors"
 	"fmt"
 	"math/rand"
+	"os"
 	"sync"
 	"testing"
 	"time"
@@ -92,6 +94,13 @@ func vfWatcherSeq(rec *vfRec, sc map[string]any) {
 				notify(c.cs)
 			}
 			close(c.done)
+		}
+		// watching ends: cleanly, or because the OS-specific loop failed (the subscribers are owed their close either way)
+		switch vfStr(sc, "enderr", "") {
+		case "other":
+			return errors.New("vf: netlink receive failed")
+		case "notexist":
+			return fmt.Errorf("vf: %w", os.ErrNotExist)
 		}
 		return nil
 	}
